@@ -607,17 +607,32 @@ func applyCloneOp(x *influxql.SelectStatement, op string, k int) (other *influxq
 		_ = x.ColumnNames()
 	case "privs":
 		_, _ = x.RequiredPrivileges()
-	case "reduce":
-		_ = x.Reduce(cloneValuer())
-	case "reducenow":
-		_ = x.Reduce(&influxql.NowValuer{Now: cloneEpoch})
+	case "reduce", "reducenow":
+		// the reduced statement is a statement of its own: it shares no mutable node with its receiver, so
+		// that rewriting it in place later cannot reach the receiver (round-3 seeded change C14-2 built it
+		// from a shallow copy that kept the receiver's field list, sort fields and target)
+		var d *influxql.SelectStatement
+		if op == "reduce" {
+			d = x.Reduce(cloneValuer())
+		} else {
+			d = x.Reduce(&influxql.NowValuer{Now: cloneEpoch})
+		}
+		if d != nil {
+			if sh := sharedMutable(takeSnapshot(x), takeSnapshot(d)); sh != "" {
+				return nil, "the statement returned by Reduce shares mutable objects with its receiver: " + sh
+			}
+		}
 	case "reduceexpr":
 		_ = influxql.Reduce(x.Condition, cloneValuer())
 		for _, f := range x.Fields {
 			_ = influxql.Reduce(f.Expr, nil)
 		}
 	case "rewritefields":
-		_, _ = x.RewriteFields(stubMapper{})
+		if d, err := x.RewriteFields(stubMapper{}); err == nil && d != nil {
+			if sh := sharedMutable(takeSnapshot(x), takeSnapshot(d)); sh != "" {
+				return nil, "the statement returned by RewriteFields shares mutable objects with its receiver: " + sh
+			}
+		}
 	case "clone", "reclone":
 		before := takeSnapshot(x)
 		c := x.Clone()
